@@ -34,7 +34,7 @@ CLAIMED = {
             "independent preprocessing reference; bit-identity on repetition, equality across processor counts (hook H1)",
             "Generated-input search over tall/square/wide matrices of controlled rank and spectrum, all 7 scalings, npc up to the rank "
             "(npc = rank forced in a third of the cases): orthonormal loadings, scores = successive projections, residual orthogonal to "
-            "the loadings, variance bookkeeping, back-transformation and score prediction. Failures whose signature is the NIPALS plateau (two exact principal axes taken in the other order) are attributed to the known finding pca-nipals-plateau-order; every other failure is reported. Exploration of the counted cases only.",
+            "the loadings, variance bookkeeping, back-transformation and score prediction. Failures whose signature is the NIPALS plateau (two exact principal axes taken in the other order) are attributed to the known finding pca-nipals-plateau-order; every other failure is reported. GetResidualMatrix is exercised for every scaling option (models without stored averages included) and with more components than the model holds. Exploration of the counted cases only.",
             "Trusted: oracle preprocessing/SVD in /verif/engine/oracle.hpp; tolerance derivations in props/C01.cpp (T1/T3).",
             "DESIGN.md section 5, C01"),
     "C02": ("property-based testing (rapidcheck): differential against a long-double cyclic Jacobi eigen-solver of E0'E0 plus metamorphic "
@@ -60,7 +60,7 @@ CLAIMED = {
             'Trusted: the model fitting/prediction API itself (checked by C03/C04/C07/C08) is used for the refit; hook H4 reports the folds actually used.',
             "DESIGN.md section 5, C05"),
     "C06": ("schedule-controlled property-based testing: the library's pthread_create/join are wrapped and its workers serialised at the RNG yield points (hook H2); interleavings are generated (rapidcheck, shrinkable) and, for 2-3 workers on 3-4 objects, enumerated exhaustively by depth-first re-execution; free-running repetition; ThreadSanitizer replay of generated cases",
-            "Generated and enumerated schedules of the bootstrap workers' random-number calls: every schedule must give the fold matrices and predictions of the sequential run; three free-running repetitions bit-identical; no ThreadSanitizer report on generated inputs. Exhaustive only for the enumerated tiny configurations (stated in the evidence).",
+            "Generated and enumerated schedules of the bootstrap workers' random-number calls: every schedule must give the fold matrices and predictions of the sequential run; three free-running repetitions bit-identical; no ThreadSanitizer report on generated inputs. The library sees a clock that changes at every call (linker --wrap=time), so a draw from an unseeded generator shows at the next repetition; every free-running routine (bootstrap, k-fold, leave-one-out, y-scrambling, k-means, EPLS random subspaces) is also compared with its sequential run; a reseed sub-property checks that seeding twice gives the same draws for every seed, the ones with internal state 0 included. Exhaustive only for the enumerated tiny configurations (stated in the evidence).",
             "Trusted: the scheduler controls interleaving at RNG-call granularity only; other shared accesses are covered by ThreadSanitizer's happens-before analysis on the schedules that happen to run.",
             "DESIGN.md section 5, C06"),
     "C07": ('property-based testing (rapidcheck, forked ASan/UBSan children): differential against Householder least squares on [1 X] in long double; normal-equation identities; metamorphic relations y -> c*y+d and X -> X*M; re-used output buffers',
